@@ -91,11 +91,15 @@ def run_one(mu: dict) -> dict:
         try:
             repo = Repo(tmp)
             ctx = Ctx(repo, mu["prop"], mu.get("tier", "quick"))
-            RULES[mu["prop"]](ctx)
+            from glint.cli import run_rules
+
+            run_rules(RULES[mu["prop"]], ctx)
             known, _ = load_known()
             viol = [o for o in ctx.obligations if not o.ok and match_known(o, mu["prop"], known) is None]
             res["violations"] = [f"{o.rule} {o.instance}" for o in viol]
             fired = bool(viol)
+            if ctx.shortfalls and not fired:
+                raise AnalysisError("; ".join(ctx.shortfalls))
             if mu["expect"] == "fire":
                 want_rule = mu.get("rule")
                 hit = fired and (want_rule is None or any(o.rule == want_rule for o in viol))
